@@ -262,11 +262,11 @@ func (c *uuidChain) stepVersioned(b []byte, rng *rand.Rand) {
 			same := false
 			switch ver {
 			case 1:
-				same = c.v1 == *fresh.(*uuid_v1.UUIDv1)
+				same = mon.ExportedEqual(c.v1, *fresh.(*uuid_v1.UUIDv1))
 			case 2:
-				same = c.v2 == *fresh.(*uuid_v2.UUIDv2)
+				same = mon.ExportedEqual(c.v2, *fresh.(*uuid_v2.UUIDv2))
 			default:
-				same = c.v8 == *fresh.(*uuid_v8.UUIDv8)
+				same = mon.ExportedEqual(c.v8, *fresh.(*uuid_v8.UUIDv8))
 			}
 			if !same {
 				r.Violation(entry+":reused-receiver:fields", fmt.Sprintf("%s(%s) into a target that had parsed %s before = %+v, a fresh target gives %+v", entry, canon, c.prev[name], target, fresh), cs)
@@ -560,7 +560,7 @@ func sharedResults(vals [][]byte) {
 				// acceptance is judged by the main workload
 			case g1 == g2:
 				r.Violation(p.name+":shared-result", "two parses of the same text returned the same object: the caller's changes to the first result reach the second", cs)
-			case *g2 != want:
+			case !mon.ExportedEqual(*g2, want):
 				r.Violation(p.name+":shared-result", fmt.Sprintf("after the first result of parsing %q was overwritten by its owner, a second parse of the same text yields %s", text, guidFormat(g2, 'D')), cs)
 			}
 		}
@@ -810,6 +810,51 @@ func setterSequences() {
 					r.Violation("uuid_v2.setters:sequence:text", fmt.Sprintf("after %s String() = %q, the fields set so far say %q", trace[len(trace)-1], txt, canonUUID(want)), cs)
 				case u.GetClock() != m.clock || u.GetLocalDomain() != m.ld || u.GetLocalDomainNumber() != m.ldn || !bytes.Equal(u.GetNodeID(), m.node[:]):
 					r.Violation("uuid_v2.setters:sequence:getters", fmt.Sprintf("after %s the getters give clock %#x domain %#x number %#x node %x, set were %#x %#x %#x %x", trace[len(trace)-1], u.GetClock(), u.GetLocalDomain(), u.GetLocalDomainNumber(), u.GetNodeID(), m.clock, m.ld, m.ldn, m.node), cs)
+				}
+			}
+		}
+		// a value copy (b := a) changed and formatted is another value: a still formats as itself,
+		// and what a returned before is still what it was
+		{
+			a2 := randV2(rng)
+			var a uuid_v2.UUIDv2
+			if _, err := a.Unmarshal(a2.want()); err == nil {
+				first, _ := a.Marshal()
+				keep := append([]byte{}, first...)
+				b := a
+				b.SetLocalDomainNumber(^a2.ldn)
+				b.SetNodeID([]byte{9, 8, 7, 6, 5, 4})
+				b.SetClock(a2.clock ^ 0x05)
+				bOut, _ := b.Marshal()
+				_ = b.String()
+				again, err := a.Marshal()
+				ev(3)
+				cs := map[string]any{"version": 2, "value": canonUUID(a2.want())}
+				if err != nil || !bytes.Equal(again, a2.want()) || a.String() != canonUUID(a2.want()) {
+					r.Violation("uuid_v2.Marshal:value-copy-writes-through", fmt.Sprintf("a holds %s; b := a; b changed and formatted as %s: a now formats as %s", canonUUID(a2.want()), canonUUID(bOut), canonUUID(again)), cs)
+				}
+				if !bytes.Equal(first, keep) {
+					r.Violation("uuid_v2.Marshal:held-output-changed:value-copy", "bytes returned by a.Marshal() changed when a value copy of a was formatted", cs)
+				}
+			}
+			a1 := randV1(rng)
+			var c uuid_v1.UUIDv1
+			if _, err := c.Unmarshal(a1.want()); err == nil {
+				first, _ := c.Marshal()
+				keep := append([]byte{}, first...)
+				d := c
+				d.SetClockSequence(a1.cseq ^ 0x0155)
+				d.SetNodeID([]byte{1, 1, 2, 3, 5, 8})
+				dOut, _ := d.Marshal()
+				_ = d.String()
+				again, err := c.Marshal()
+				ev(3)
+				cs := map[string]any{"version": 1, "value": canonUUID(a1.want())}
+				if err != nil || !bytes.Equal(again, a1.want()) || c.String() != canonUUID(a1.want()) {
+					r.Violation("uuid_v1.Marshal:value-copy-writes-through", fmt.Sprintf("a holds %s; b := a; b changed and formatted as %s: a now formats as %s", canonUUID(a1.want()), canonUUID(dOut), canonUUID(again)), cs)
+				}
+				if !bytes.Equal(first, keep) {
+					r.Violation("uuid_v1.Marshal:held-output-changed:value-copy", "bytes returned by a.Marshal() changed when a value copy of a was formatted", cs)
 				}
 			}
 		}
